@@ -25,6 +25,7 @@ func plainEngines() map[string]simkit.Engine {
 	add("stream-html", stream.HTML)
 	add("history", history.Run)
 	add("sched-cli", cli.Sched)
+	add("cli", cli.Run)
 	return m
 }
 
@@ -115,6 +116,13 @@ func checkCmd(args []string) int {
 			{Label: "sched-cli", Bin: bin, Engine: "sched-cli", Runs: pick(2500, 300000), MaxSeconds: secs(40, 1200), DetSample: int(pick(4, 32)), Samples: 2},
 			{Label: "sched-lib-race", BinKind: "sched-race", Bin: env("VERIF_SCHED_RACE_BIN", ""), Engine: "sched-lib", Runs: pick(1000, 50000), MaxSeconds: secs(25, 900), Env: raceEnv, Samples: 1},
 		}
+	case "C20":
+		c.Level = "exploration"
+		c.Rule = "one evaluation = one run of the real CLI (instrumented test binary, main() as task 0 under scheduler P with the run-to-completion schedule, -c 1) over a generated directory tree (xml/xhtml/svg/html/htm/json/other extensions, nested directories, file faults: truncated, corrupted, empty, dangling symlink, symlink to a directory, unknown extension, missing file), flags (-a -m -n -r -t -u -s -v -e), an expression from the pool or the workload generator, optional stdin; stdout is matched record by record against what the harness computes with the same library; distinct = distinct (argv, tree, stdin); non-trivial = at least one file processed and at least one record or required diagnostic"
+		c.Assumptions = []string{"both sides use the same library: XPath-semantics defects cannot raise an alarm here", "diagnostic wording and exit status are not judged", "-m records are judged by re-parsing (expanded names, attributes, text, comments, PIs), never byte-wise; attribute/namespace/root results under -m only have to be single-line", "-m round trips are judged for nodes of XML and generated (clean) HTML documents and JSON documents alike; findings are keyed by the shape of the difference"}
+		c.Components = map[string][]string{"real": append([]string{"xsel/xsel.go (yield-instrumented copy, otherwise unmodified), flag, mime, filepath.WalkDir, os"}, realLib...), "simulated": {"argv, stdin, directory tree and file faults (scratch directory on the real file system)", "goroutine choice (scheduler P, trivial schedule)"}}
+		c.RequiredProbes = []string{"string-record", "multi-line-string-record", "m-record:element", "m-record:text", "file-fault:unreadable", "file-fault:unparsable or untyped", "global-diagnostic-case", "files-processed"}
+		c.Phases = []simkit.Phase{{Label: "cli", Bin: bin, Engine: "cli", Runs: pick(4000, 300000), MaxSeconds: secs(60, 1500), DetSample: int(pick(8, 64)), Samples: 3}}
 	case "C10":
 		c.Level = "exploration"
 		c.Rule = "one evaluation = one scripted event history (contract-conforming: element start, then namespaces, then attributes, then children, end; surplus end events only where depth is 0) pulled by store.CreateInMemory through the Parser seam and compared with a stack-machine reference model, plus the stack-ceiling child processes (one evaluation each); distinct = distinct event history; non-trivial = history has >= 4 events"
